@@ -131,10 +131,44 @@ pub proof fn lemma_same_but(s: Raw, t: Raw, k: Seq<u8>)
 // ===================================================================== functions under contract
 pub open spec fn distinct_members(m: Seq<Member>) -> bool { forall|i: int, j: int| 0 <= i < j < m.len() ==> m[i].addr@ != m[j].addr@ }
 
-// ASSUMED LEAF (sort_by + zip over the slice is outside Verus' reach): bounded Kani harness kani/validate_unique_members.rs
-@fn contracts/cw4-group/src/helpers.rs validate_unique_members [assume]
-@ensures C09.validate_unique_members
-    r is Ok ==> distinct_members(final(members)@) && final(members)@.to_multiset() == old(members)@.to_multiset()
+// sort_by and the zip over neighbours go through E11 to shim functions carrying the ASSUMED std semantics (permutation, sorted,
+// neighbouring pairs); the body of validate_unique_members itself is verified (the thorough tier also runs a bounded Kani harness)
+@fn contracts/cw4-group/src/helpers.rs validate_unique_members [closures: 1; loops: 1]
+@ensures C09.validate_unique_members C14
+    r is Ok ==> distinct_members(final(members)@) && final(members)@.len() == old(members)@.len()
+        && exists|p: Seq<int>| is_perm(p, old(members)@.len() as int) && forall|i: int| 0 <= i < final(members)@.len() ==> #[trigger] final(members)@[i] == old(members)@[p[i]]
+@adapter sort_by 1
+@closure_types 1
+    a: &Member
+    b: &Member
+@closure 1 C09.validate_unique_members_cmp
+    (res: core::cmp::Ordering)
+    ensures res == str_cmp(a.addr@, b.addr@)
+@replace E11 "members.iter().zip(members.iter().skip(1))" 1
+    adjacent_pairs(members)
+@loop 1 C09.validate_unique_members_scan
+    invariant
+        forall|i: int| 0 <= i < it.index@ ==> (#[trigger] members@[i]).addr@ != members@[i + 1].addr@,
+@insert_before "for (a, b) in" 1
+    let ghost sorted = members@;
+    proof {
+        broadcast use ax_str_le_antisym, ax_str_le_trans, ax_str_le_total;
+        assert forall|i: int, j: int| 0 <= i <= j < sorted.len() implies str_le(#[trigger] sorted[i].addr@, #[trigger] sorted[j].addr@) by {
+            // sort_cmp(closure)(x, y) is what the closure returns: str_cmp of the two addresses
+            assert(str_cmp(sorted[i].addr@, sorted[j].addr@) != core::cmp::Ordering::Greater);
+        }
+    }
+@insert_before "Ok(())" 1
+    proof {
+        broadcast use ax_str_le_antisym, ax_str_le_trans, ax_str_le_total;
+        // sorted by address and no two neighbours equal: pairwise distinct
+        assert forall|i: int, j: int| 0 <= i < j < members@.len() implies (#[trigger] members@[i]).addr@ != (#[trigger] members@[j]).addr@ by {
+            if members@[i].addr@ == members@[j].addr@ {
+                assert(str_le(members@[i].addr@, members@[i + 1].addr@) && str_le(members@[i + 1].addr@, members@[j].addr@));
+                assert(members@[i].addr@ != members@[i + 1].addr@);
+            }
+        }
+    }
 @end
 
 @include inc/cw4_hooks.vsi
@@ -153,6 +187,8 @@ pub open spec fn only_members_keys(s: Raw, m: Seq<Member>, n: int) -> bool {
     r is Ok ==> admin_of(final(deps.storage).view(), "admin"@) is Some
         && (admin is None ==> admin_of(final(deps.storage).view(), "admin"@)->Some_0 is None)
         && (admin is Some ==> admin_of(final(deps.storage).view(), "admin"@)->Some_0 is Some && admin_of(final(deps.storage).view(), "admin"@)->Some_0->Some_0@ == admin->Some_0@)
+@ensures C09.create_members_as_given
+    r is Ok ==> forall|j: int| 0 <= j < members@.len() ==> member_of(final(deps.storage).view(), (#[trigger] members@[j]).addr@) == Some(members@[j].weight)
 @closure 1 C14.create_admin_validate
     (res: StdResult<Addr>)
     ensures res is Ok ==> res->Ok_0@ == admin@
@@ -160,6 +196,8 @@ pub open spec fn only_members_keys(s: Raw, m: Seq<Member>, n: int) -> bool {
     invariant
         it.index@ <= members@.len(),
         distinct_members(members@),
+        forall|j: int| 0 <= j < it.index@ ==> member_of(deps.storage.view(), (#[trigger] members@[j]).addr@) == Some(members@[j].weight),
+        is_perm(perm, orig.len() as int), members@.len() == orig.len(), forall|i: int| 0 <= i < members@.len() ==> #[trigger] members@[i] == orig[perm[i]],
         total.0 == wsum(members@, it.index@ as int),
         msum(deps.storage.view()) == wsum(members@, it.index@ as int),
         only_members_keys(deps.storage.view(), members@, it.index@ as int),
@@ -168,6 +206,12 @@ pub open spec fn only_members_keys(s: Raw, m: Seq<Member>, n: int) -> bool {
 @prefix
     broadcast use cw4_axioms;
     proof { lemma_ns4(); }
+    let ghost orig = members@;
+    let ghost mut perm: Seq<int> = Seq::empty();
+@insert_before "let members = members;" 1
+    proof {
+        perm = choose|p: Seq<int>| is_perm(p, orig.len() as int) && forall|i: int| 0 <= i < members@.len() ==> #[trigger] members@[i] == orig[p[i]];
+    }
 @insert_before "let mut total = Uint64::zero();" 1
     proof {
         let s1 = deps.storage.view();
@@ -210,9 +254,21 @@ pub open spec fn only_members_keys(s: Raw, m: Seq<Member>, n: int) -> bool {
         }
         assert(unpath(item_key("admin"@)) != unpath(mkey(a)) && unpath(item_key("admin"@)) != unpath(ck));
         assert(unpath(tkey()) != unpath(mkey(a)) && unpath(tkey()) != unpath(ck));
+        assert forall|j: int| 0 <= j <= idx implies member_of(post, (#[trigger] members@[j]).addr@) == Some(members@[j].weight) by {
+            if j < idx { assert(members@[j].addr@ != members@[idx].addr@); }
+        }
     }
 @insert_before "TOTAL.save(deps.storage, &total.u64(), height)?;" 1
     proof { lemma_total_set(deps.storage.view(), total.0, height); }
+@insert_before "Ok(())" 1
+    proof {
+        let t = deps.storage.view();
+        assert forall|j: int| 0 <= j < orig.len() implies member_of(t, (#[trigger] orig[j]).addr@) == Some(orig[j].weight) by {
+            assert(perm_hits(perm, orig.len() as int, j));
+            let i = choose|i: int| 0 <= i < orig.len() && #[trigger] perm[i] == j;
+            assert(members@[i] == orig[j]);
+        }
+    }
 @end
 
 // --------------------------------------------------------------------- update_members (C09 total, C14 truthful diffs)
@@ -380,6 +436,14 @@ pub open spec fn step_msg(s: Raw, t: Raw, sender: Seq<char>, h: u64, msg: Execut
     r is Ok ==> step_msg(old(deps.storage).view(), final(deps.storage).view(), info.sender@, env.block.height, msg)
 @ensures C09.execute_inv
     r is Ok ==> inv(final(deps.storage).view())
+@ensures C14.execute_dispatch_msgs
+    r is Ok ==> match msg {
+        ExecuteMsg::UpdateMembers { remove, add } => exists|m: MemberChangedHookMsg| #![auto]
+            step_update_members(old(deps.storage).view(), final(deps.storage).view(), info.sender@, env.block.height, m.diffs@)
+            && r->Ok_0.messages@.len() == hooks_of(old(deps.storage).view(), "cw4-hooks"@).len()
+            && forall|i: int| 0 <= i < r->Ok_0.messages@.len() ==> is_hook_msg(#[trigger] r->Ok_0.messages@[i], hooks_of(old(deps.storage).view(), "cw4-hooks"@)[i]@, m),
+        _ => r->Ok_0.messages@.len() == 0,
+    }
 @closure 1 C14.execute_admin_validate
     (res: StdResult<Addr>)
     ensures res is Ok ==> res->Ok_0@ == admin@
@@ -404,6 +468,12 @@ pub open spec fn step_msg(s: Raw, t: Raw, sender: Seq<char>, h: u64, msg: Execut
     old(deps.storage).view() == SMap::<Seq<u8>, Seq<u8>>::empty()
 @ensures C09.instantiate_inv C14
     r is Ok ==> inv(final(deps.storage).view())
+@ensures C14.instantiate_admin_as_given
+    r is Ok ==> admin_of(final(deps.storage).view(), "admin"@) is Some
+        && (msg.admin is None ==> admin_of(final(deps.storage).view(), "admin"@)->Some_0 is None)
+        && (msg.admin is Some ==> admin_of(final(deps.storage).view(), "admin"@)->Some_0 is Some && admin_of(final(deps.storage).view(), "admin"@)->Some_0->Some_0@ == msg.admin->Some_0@)
+@ensures C09.instantiate_members_as_given
+    r is Ok ==> forall|j: int| 0 <= j < msg.members@.len() ==> member_of(final(deps.storage).view(), (#[trigger] msg.members@[j]).addr@) == Some(msg.members@[j].weight)
 @end
 
 @fn contracts/cw4-group/src/contract.rs query_total_weight
